@@ -78,6 +78,8 @@ def small_enough(c):
 
 
 def request(c):
+    if c['kind'] == 'hostsub':
+        return None
     if not small_enough(c):
         return None
     bodies = '(' + ' '.join('(' + ' '.join(fmt_op(o) for o in b) + ')' for b in c['bodies']) + ')'
@@ -96,6 +98,10 @@ def run_real(c, make):
     late = bool(c.get('latectx'))
     # on a Parser the histories may run under the parser's OWN event names (its constructor has had a chance to prepare them)
     own = ['callFunction', 'callVariable', 'callCellValue', 'callRangeValue'] if c.get('ownnames') else None
+
+    if c.get('snake'):
+        # names that are the snake_case spellings of the Parser's methods: names like any other
+        own = ['call_cell_value', 'call_range_value', 'call_function', 'call_variable']
 
     def nm(k):
         return own[k] if own is not None and k < len(own) else 'n%d' % k
@@ -118,6 +124,12 @@ def run_real(c, make):
             e.off(nm(op[1]), get(op[2]))
         elif k == 'emit':
             e.emit(nm(op[1]), op[1], op[2])
+            if c.get('snake') and hasattr(e, 'parse'):
+                # between the operations the parser does its own work (and raises its own events, which are none of these names)
+                import contextlib
+                import io
+                with contextlib.redirect_stderr(io.StringIO()), contextlib.redirect_stdout(io.StringIO()):
+                    e.parse(['A1+1', 'SUM(A1:B2)', 'SUM(1,2)+va', 'A1'][op[2] % 4])
 
     def mk(i):
         def cb(name, arg, c=None):
@@ -243,7 +255,47 @@ def _makers():
     return {'emitter': Emitter, 'parser': hotxlfp.Parser, 'debugparser': lambda: hotxlfp.Parser(debug=True)}
 
 
+HOSTSUB = [
+    # (event, how, formulas, expected log): a listener subscribed from INSIDE a host function that a formula calls is a listener
+    # from then on - it hears every later emit of that name (the calling function's own callFunction event included)
+    ('callFunction', 'on', ['AUDIT()+SUM(1,2)', 'SUM(3,4)+ABS(1)'], ['AUDIT', 'SUM', 'SUM', 'ABS']),
+    ('callFunction', 'once', ['AUDIT()+SUM(1,2)', 'SUM(3,4)'], ['AUDIT']),
+    ('callFunction', 'on', ['SUM(1,2)', 'AUDIT()', 'ABS(2)'], ['AUDIT', 'ABS']),
+    ('callCellValue', 'on', ['AUDIT()+A1', 'B2+A1'], ['A1', 'B2', 'A1']),
+    ('callVariable', 'on', ['AUDIT()+va', 'vb'], ['va', 'vb']),
+    ('callFunction', 'host', ['SUM(1,2)', 'ABS(2)'], ['SUM', 'ABS']),
+]
+
+
+def run_hostsub(c):
+    common.load_repo()
+    import hotxlfp
+    ev, how, formulas, _want = HOSTSUB[c['i']]
+    p = hotxlfp.Parser(debug=True) if c.get('debug') else hotxlfp.Parser()
+    p.set_variable('va', 1)
+    p.set_variable('vb', 2)
+    log = []
+
+    def listener(first, *rest):
+        log.append(getattr(first, 'label', first))
+
+    def audit(*a):
+        (p.once if how == 'once' else p.on)(ev, listener)
+        return 1
+    p.set_function('AUDIT', audit)
+    if how == 'host':
+        p.on(ev, listener)
+    import contextlib
+    import io
+    with contextlib.redirect_stderr(io.StringIO()), contextlib.redirect_stdout(io.StringIO()):
+        for f in formulas:
+            p.parse(f)
+    return 'hostsub ' + ' '.join(str(x) for x in log)
+
+
 def impl(c):
+    if c['kind'] == 'hostsub':
+        return run_hostsub(c)
     make = _makers()[c.get('on', 'emitter')]
     try:
         main, probe = run_real(c, make)
@@ -259,6 +311,13 @@ def agree(c, impl_ans, model_ans):
 def oracle(c, impl_ans):
     if impl_ans is None:
         return None
+    if c['kind'] == 'hostsub':
+        ev, how, formulas, want = HOSTSUB[c['i']]
+        got = impl_ans.split(' ')[1:]
+        if got != want:
+            return ('a listener subscribed with %s(%r) from inside the host function AUDIT (called by the first formula that names it) heard %r '
+                    'over the formulas %r; every emit of that name from then on is %r' % (how, ev, got, formulas, want))
+        return None
     try:
         main, probe = run_spec(c)
     except Budget:
@@ -270,6 +329,8 @@ def oracle(c, impl_ans):
 
 
 def nontrivial(c, impl_ans):
+    if c['kind'] == 'hostsub':
+        return True
     return impl_ans is not None and not impl_ans.startswith('(() ')
 
 
@@ -300,7 +361,7 @@ def gen_case(rng, maxlen):
     ops = [gen_op(rng, names, ncb) for _ in range(rng.randrange(1, maxlen + 1))]
     return {'kind': 'script', 'on': rng.choice(['emitter', 'emitter', 'emitter', 'emitter', 'parser', 'parser', 'debugparser']), 'fuel': fuel,
             'flavour': rng.choice(['function', 'function', 'function', 'bound', 'bound', 'wrapped', 'wrapped', 'orphan']), 'latectx': rng.random() < 0.4, 'rets': rng.random() < 0.4, 'ownnames': rng.random() < 0.5,
-            'names': names, 'bodies': bodies, 'ops': ops}
+            'names': names, 'bodies': bodies, 'ops': ops, 'snake': rng.random() < 0.15}
 
 
 CORE = [
@@ -323,7 +384,8 @@ def cases(rng, ctx):
     thorough = ctx['tier'] == 'thorough'
     out = [dict(c) for c in CORE] + [dict(c, flavour='bound') for c in CORE] + [dict(c, flavour='wrapped') for c in CORE] + \
         [dict(c, latectx=True) for c in CORE] + [dict(c, rets=True) for c in CORE] + [dict(c, on='parser', ownnames=True) for c in CORE] + \
-        [dict(c, flavour='orphan') for c in CORE] + [dict(c, on='debugparser') for c in CORE] + [dict(c, on='debugparser', ownnames=True) for c in CORE]
+        [dict(c, on='parser', snake=True) for c in CORE] + [dict(c, flavour='orphan') for c in CORE] + [dict(c, on='debugparser') for c in CORE] + [dict(c, on='debugparser', ownnames=True) for c in CORE]
+    out += [{'kind': 'hostsub', 'i': i} for i in range(len(HOSTSUB))] + [{'kind': 'hostsub', 'i': i, 'debug': True} for i in range(len(HOSTSUB))]
     n = (20000 if thorough else 1500) * ctx['scale']
     maxlen = 60 if thorough else 30
     for _ in range(n):
